@@ -215,6 +215,16 @@ func c02R2(c *Ctx, r *Report, fns []*ssa.Function) {
 					if isSmall(v) {
 						continue
 					}
+					// one of a few constants, chosen by a test (a width by address family): bounded by the largest
+					allConst := true
+					for _, l := range phiLeaves(v) {
+						if _, isK := constIntOf(l); !isK {
+							allConst = false
+						}
+					}
+					if allConst {
+						continue
+					}
 					if q, ok := v.(*ssa.BinOp); ok && (q.Op == token.QUO || q.Op == token.REM || q.Op == token.SHR) {
 						// len(x)/k style
 						e2 := newLinEnv()
